@@ -249,6 +249,8 @@ def make_iter_models(index):
 
     return [
         (rx(r"^Option::<.*>::or$"), m_opt_or),
+        (rx(r"^<Chars<'_> as Iterator>::rev$"), lambda ex, st, args, callee, ty: VecM(list(reversed(_obj(ex, st, args[0]).items)))),
+        (rx(r"^<Rev<Chars<'_>> as Iterator>::collect::<Vec<char>>$"), lambda ex, st, args, callee, ty: VecM(list(_obj(ex, st, args[0]).items))),
         (rx(r"^(?:std|core)::mem::swap::<.*>$"), m_swap),
         (rx(r"^<Option<&(?:std::ffi::)?OsStr> as (?:Partial)?Ord>::cmp$"), m_cmp_opt_text),
         (rx(r"^<Vec<.*> as DerefMut>::deref_mut$"), lambda ex, st, args, callee, ty: _recv(args[0])),
